@@ -717,7 +717,7 @@ def polyfit(x, y, deg, **kwargs):
     u_x = unit_of(x[0])
     u_y = unit_of(y[0])
     _x, _y = to_unitless(x, u_x), to_unitless(y, u_y)
-    p = np.polyfit(_x, _y, deg)
+    p = np.polyfit(_x, _y, deg, **kwargs)
     return [v * u_y * u_x ** (i - deg) for i, v in enumerate(p)]
 
 
